@@ -28,7 +28,9 @@ Record fmt_obs := mkFmt {
   f_out1_id : N;              (* interned output text of the first pass *)
   f_out1_sig : list (N * N);
   f_out2 : fmt_outcome;       (* second pass on the first output *)
-  f_out2_id : N }.
+  f_out2_id : N;
+  f_same_behaviour : bool }.  (* input and output compile alike (same error codes, or same
+                                 verdicts and matches on the harness buffers) *)
 
 Inductive case :=
 | CProc (pt : N) (rules : list (cexpr * action)) (inp : list token) (limit : nat)
@@ -93,8 +95,12 @@ Definition fmt_idempotent (o : fmt_obs) : bool :=
   | _ => true
   end.
 
+Definition fmt_same_behaviour (o : fmt_obs) : bool :=
+  match f_out1 o with FOk _ => f_same_behaviour o | _ => true end.
+
 Definition spec_case (c : case) : bool :=
   match c with
-  | CFmt o => fmt_no_crash o && fmt_tokens_preserved o && fmt_flag_truthful o && fmt_idempotent o
+  | CFmt o => fmt_no_crash o && fmt_tokens_preserved o && fmt_flag_truthful o && fmt_idempotent o &&
+              fmt_same_behaviour o
   | _ => true
   end.
